@@ -3,11 +3,21 @@
 import json, os, sys
 VERIF = os.path.dirname(os.path.dirname(os.path.abspath(__file__)))
 sys.path.insert(0, os.path.join(VERIF, 'bin'))
-from checks import CHECKS, NOT_APPLICABLE, HOOK_COMMITS  # noqa
+from checks import CHECKS, NOT_APPLICABLE, HOOK_COMMITS, FLAVOURS  # noqa
 BASELINE_OFF = "cd /repo && cargo nextest run --workspace --no-fail-fast --test-threads 8 --offline"
+def _setup():
+    parts = []
+    for name in ['prod', 'sysalloc', 'asan', 'tsan']:
+        f = FLAVOURS[name]
+        env = ' '.join(f"{k}='{v}'" for k, v in f.get('env', {}).items())
+        parts.append(f"CARGO_NET_OFFLINE=true {env} {' '.join(f['cmd'])}".replace('  ', ' '))
+    return 'cd /verif/harness && ' + ' && '.join(parts)
+
+
+SETUP = _setup()
 m = {
     "version": 1,
-    "setup_cmd": "cd /verif/harness && CARGO_NET_OFFLINE=true cargo build --release --offline --bin axv --target-dir ../target/prod && CARGO_NET_OFFLINE=true cargo build --release --offline --features sysalloc --bin axv --target-dir ../target/sysalloc",
+    "setup_cmd": SETUP,
     "hooks": {
         "guard": "cargo features `verif` (I/O tap, facade, yield points) and `verif_sysalloc` (system allocator for sanitizers) of crate axmosdb",
         "enable": "the harness crate depends on axmosdb = { path = \"/repo/crates/axmos-db\", features = [\"verif\"] }; sanitizer flavours add verif_sysalloc",
